@@ -22,6 +22,7 @@ var c10Polluters = []jsProg{
 	{"bindings-depth2", `_.bindings.o.x = 99; return {};`},
 	{"bindings-depth3", `_.bindings.o.l[0].z = 99; _.bindings.o.l.push(7); return {};`},
 	{"bindings-go-typed", `_.bindings.tags[0] = "changed"; _.bindings.labels.a = "changed"; _.bindings.recs[0].k = 2; return {};`},
+	{"bindings-permanent-value", `_.bindings["cfg!"].limit = 0; _.bindings["cfg!"].deep[0].z = "changed"; _.bindings["cfg!"].deep.push(9); _.bindings["list!"][0] = "changed"; return _.bindings;`},
 	{"props-nested", `_.props.cfg.x = 99; _.props.list.push(1); return {};`},
 	{"props-top", `_.props.top = 1; delete _.props.cfg; return {};`},
 	{"props-array-of-maps", `_.props.hosts[0].up = false; _.props.hosts[0].tags.push("t"); _.props.hosts[1][0].deep = 2; return {};`},
@@ -58,12 +59,16 @@ var c10Self = []jsProg{
 	{"self-env", `var was = _.marker === undefined; _.marker = 1; return {was: was};`},
 	{"self-props-nested", `var was = _.props.cfg.x; _.props.cfg.x = 99; return {was: was};`},
 	{"self-props-top", `var was = _.props.selfmark === undefined; _.props.selfmark = 1; return {was: was};`},
+	{"self-permanent-value", `var was = _.bindings["cfg!"].limit; _.bindings["cfg!"].limit = 0; _.bindings["list!"].push("more"); return {was: was, n: _.bindings["list!"].length};`},
 	{"self-bindings-nested", `var was = _.bindings.o.x; _.bindings.o.x = 99; return {was: was};`},
 }
 
 func c10Bindings() match.Bindings {
 	// besides JSON-shaped values, composites of other Go types that a Go host or a native action can bind
 	return match.Bindings{"a": 1.0, "keep": "k", "o": M{"x": 1.0, "l": []interface{}{M{"z": 1.0}, 2.0}},
+		// permanent bindings: restored by the engine after the action - which must not tempt anybody to hand
+		// their values to a script uncopied
+		"cfg!": M{"limit": 5.0, "deep": []interface{}{M{"z": 1.0}}}, "list!": []interface{}{"a", "b"},
 		"tags": []string{"x", "y"}, "labels": map[string]string{"a": "b"}, "recs": []map[string]interface{}{{"k": 1.0}}}
 }
 
@@ -210,7 +215,7 @@ func C10(c *vh.Ctx) {
 		}
 		return
 	}
-	c.Rule(fmt.Sprintf("%d polluting scripts (in-place mutation of bindings at depth 1-3, of nested and top-level props, implicit and this-globals, Object/Array/String prototypes, JSON/Math built-ins, replacing or freezing members of the environment object, polluting then failing) x %d probes + %d self-probing scripts; every ordered pair (polluter, probe), every triple (polluter, polluter, probe), and every self-probing script twice; through Interpreter.Exec with a shared compiled program and through Spec.Walk; with fresh and with shared caller bindings/props objects; pairs and self-probes also with nil and with empty step properties; oracle: the probe's bindings and emissions equal its solo result, the caller's bindings and props are snapshot-equal afterwards. non-trivial = every sequence.", len(c10Polluters), len(c10Probes), len(c10Self)))
+	c.Rule(fmt.Sprintf("%d polluting scripts (in-place mutation of bindings at depth 1-3 (also of the values of permanent '!' bindings), of nested and top-level props, implicit and this-globals, Object/Array/String prototypes, JSON/Math built-ins, replacing or freezing members of the environment object, polluting then failing) x %d probes + %d self-probing scripts; every ordered pair (polluter, probe), every triple (polluter, polluter, probe), and every self-probing script twice; through Interpreter.Exec with a shared compiled program and through Spec.Walk; with fresh and with shared caller bindings/props objects; pairs and self-probes also with nil and with empty step properties; oracle: the probe's bindings and emissions equal its solo result, the caller's bindings and props are snapshot-equal afterwards. non-trivial = every sequence.", len(c10Polluters), len(c10Probes), len(c10Self)))
 	var idx uint64
 	// the caller supplies no step properties (nil) or empty ones: pairs and self-probes
 	for _, via := range []string{"exec", "walk"} {
